@@ -325,6 +325,7 @@ LOOP_SITES = [
 ]
 
 
+@guarded("list")
 def loop_site_obligations():
     """-> [(function key, obligations, info)]"""
     from pyvc import loader
